@@ -47,6 +47,7 @@ pub fn run_cases(ctx: &Ctx, n: u64, f: impl Fn(u64) -> CaseOut + Sync) -> Summar
                     break;
                 }
                 let c = f(i);
+                util::done_flight();
                 results.lock().unwrap().push((i, c));
             });
         }
@@ -193,6 +194,12 @@ fn run_property(ctx: &Ctx, prop: &str) {
                 t.samples.clear();
                 merge(&mut s, t);
             }
+            let ss = streams::split_shift_streams(&mut Rng::new(seed ^ 0x55));
+            merge(&mut s, run_cases(ctx, ss.len() as u64, |i| {
+                let mut o = streams::c07_case(&ss[i as usize].0, &ss[i as usize].1);
+                o.tags.push("split-shift".into());
+                o
+            }));
             let pads = streams::padding_streams();
             merge(&mut s, run_cases(ctx, pads.len() as u64, |i| streams::c07_case(&pads[i as usize].0, &pads[i as usize].1)));
             write_summary(ctx, prop, &s,
@@ -210,6 +217,13 @@ fn run_property(ctx: &Ctx, prop: &str) {
             merge(&mut s, run_cases(ctx, n, |i| {
                 let c = streams::case(seed, i, 70000, false);
                 streams::c03_case(&c, i)
+            }));
+            let ss = streams::split_shift_streams(&mut Rng::new(seed ^ 0x55));
+            merge(&mut s, run_cases(ctx, ss.len() as u64, |i| {
+                let c = streams::Case { s: gen::StreamCase { bytes: ss[i as usize].0.clone(), label: ss[i as usize].1.clone(), plain: None }, source: streams::Source::Own };
+                let mut o = streams::c03_case(&c, i);
+                o.tags.push("split-shift".into());
+                o
             }));
             // one stream per (length code, distance code, extra-bits extreme)
             let mut r = Rng::new(seed ^ 0xC03);
@@ -295,6 +309,16 @@ fn run_property(ctx: &Ctx, prop: &str) {
                 let c = streams::Case { s: gen::StreamCase { bytes: bs[i as usize].0.clone(), label: bs[i as usize].1.clone(), plain: None }, source: streams::Source::Own };
                 let mut o = streams::c02_case(&c, &mut Rng::new(seed ^ i));
                 o.tags.push("boundary-stream".into());
+                o
+            });
+            t.samples.truncate(1);
+            merge(&mut s, t);
+            let nl = ctx.n(300, 6000);
+            let mut t = run_cases(ctx, nl, |i| {
+                let c = streams::lazy_small_block_case(seed, i);
+                let mut o = streams::c02_case(&c, &mut Rng::new(seed ^ (i << 24)));
+                o.requests.clear();
+                o.tags.push("lazy-small-blocks".into());
                 o
             });
             t.samples.truncate(1);
@@ -418,7 +442,10 @@ fn main() {
             let (a, b) = preflate_rs::verif_hooks::format_versions();
             println!("{a} {b}");
         }
-        p => run_property(&ctx, p),
+        p => {
+            util::start_watchdog(p.to_string(), ctx.tier.clone(), ctx.seed, ctx.out.clone(), if ctx.thorough() { 600 } else { 90 });
+            run_property(&ctx, p)
+        }
     }
 }
 
